@@ -585,6 +585,64 @@ func routingTable(w *World, r *Report, rule string) {
 	}
 }
 
+// evmMessageDeep: the (single) call of evmMessage with nonce checking enabled that
+// EVMCtrler.ExecuteTrx reaches (in itself or in helpers, three levels), its
+// arguments printed in ExecuteTrx's terms (parameter objects and helper
+// parameters resolved), the function that contains it, and whether
+// core.ApplyMessage in that function runs exactly that message.
+type evmMsgSite struct {
+	Fn      *ssa.Function
+	Call    ssa.CallInstruction
+	Args    []string
+	Applied bool
+	ToFrom  string // source of the copy into the destination address, in ExecuteTrx's terms
+}
+
+func (w *World) evmMessageDeep(ex *ssa.Function) *evmMsgSite {
+	var found *evmMsgSite
+	n := 0
+	for _, g := range w.withModuleCallees(ex, 3) {
+		for _, c := range w.callsTo(g, fref{"ctrlers/vm/evm", "", "evmMessage"}) {
+			a := c.Common().Args
+			if len(a) != 8 {
+				continue
+			}
+			if fake, isC := constBool(a[7]); !isC || fake {
+				continue
+			}
+			site := &evmMsgSite{Fn: g, Call: c}
+			ok := w.inCallerTerms(ex, g, func() bool {
+				site.Args = nil
+				for _, x := range a {
+					site.Args = append(site.Args, w.Canon(x))
+				}
+				site.ToFrom = ""
+				for _, c2 := range CallsIn(g) {
+					if bi, isB := c2.Common().Value.(*ssa.Builtin); isB && bi.Name() == "copy" && len(c2.Common().Args) == 2 {
+						site.ToFrom = w.Canon(c2.Common().Args[1])
+					}
+				}
+				return true
+			})
+			if !ok {
+				continue
+			}
+			for _, am := range w.callsTo(g, fref{"github.com/ethereum/go-ethereum/core", "", "ApplyMessage"}) {
+				if sameValue(am.Common().Args[1], callValue(c)) {
+					site.Applied = true
+				}
+			}
+			// reached from ExecuteTrx only if g is ExecuteTrx or every chain kept starts there
+			found = site
+			n++
+		}
+	}
+	if n != 1 {
+		return nil
+	}
+	return found
+}
+
 func n4(w *World, r *Report) {
 	ex := needFn(r, "N-4", w, fref{"ctrlers/vm/evm", "EVMCtrler", "ExecuteTrx"})
 	if ex != nil {
@@ -594,9 +652,27 @@ func n4(w *World, r *Report) {
 			_, a := callRecvArgs(cs[0].Common())
 			ok = len(a) == 8 && w.Canon(a[0]) == "p0.Tx.From" && w.Canon(a[1]) == "p0.Tx.To" && w.Canon(a[2]) == "p0.Tx.Nonce" && w.Canon(a[3]) == "p0.Tx.Gas" && w.Canon(a[5]) == "p0.Tx.Amount"
 		}
+		var deep *evmMsgSite
+		if !ok {
+			// arranged differently (a parameter object, another helper): the message that
+			// ExecuteTrx reaches, in ExecuteTrx's own terms
+			if deep = w.evmMessageDeep(ex); deep != nil {
+				a := deep.Args
+				ok = strings.HasPrefix(a[0], "p0.Tx.From") && a[2] == "p0.Tx.Nonce" && a[3] == "p0.Tx.Gas" && a[5] == "p0.Tx.Amount" && (deep.ToFrom == "p0.Tx.To" || a[1] == "p0.Tx.To")
+			}
+		}
 		r.Check(ok, "N-4", "ExecuteTrx:execVM-args", "the EVM message is built from the transaction's own sender, receiver, nonce, gas and amount", "execVM is not given the transaction's own sender/receiver/nonce/gas/amount", fnSite(w, ex))
+		if ok && deep != nil {
+			r.OK("N-4", "execVM:nonce-checked", "the message ExecuteTrx reaches carries the tx nonce and isFake=false (decided on the call chain from ExecuteTrx)", site(w, deep.Call))
+			r.Check(deep.Applied, "N-4", "execVM:applies-that-message", "ApplyMessage runs exactly that message", "ApplyMessage does not run the message built from the transaction", site(w, deep.Call))
+			w.n4Deep = true
+		}
 	}
 	ev := needFn(r, "N-4", w, fref{"ctrlers/vm/evm", "EVMCtrler", "execVM"})
+	if w.n4Deep {
+		ev = nil
+		w.n4Deep = false
+	}
 	if ev != nil {
 		cs := w.callsTo(ev, fref{"ctrlers/vm/evm", "", "evmMessage"})
 		ok := len(cs) == 1
